@@ -115,9 +115,13 @@ DoReimport == /\ pc = "exported"
               /\ back' = [i \in 1..Len(rel) |-> ImportR(rel[i], cs.v, cs.px)]
               /\ pc' = "reimported" /\ op' = "reimport" /\ UNCHANGED <<cs, rel, cid, live>>
 
+\* the pixel size of row i: a quantity that is usually the same for the whole table but belongs to the particle - a merged
+\* list carries it per row (rlnPixelSize column, or one value per optics group): cs.pxs, when the case has it
+PxOf(i) == IF "pxs" \in DOMAIN cs THEN cs.pxs[i] ELSE cs.px
+
 DoImport == /\ pc = "start" /\ cs.mode \in {"import", "orig"}
-            /\ \A i \in 1..Len(cs.rin) : \A k \in 1..3 : OnLattice(cs.rin[i].origin[k], cs.v, cs.px)
-            /\ back' = [i \in 1..Len(cs.rin) |-> ImportR(cs.rin[i], cs.v, cs.px)]
+            /\ \A i \in 1..Len(cs.rin) : \A k \in 1..3 : OnLattice(cs.rin[i].origin[k], cs.v, PxOf(i))
+            /\ back' = [i \in 1..Len(cs.rin) |-> ImportR(cs.rin[i], cs.v, PxOf(i))]
             /\ pc' = "imported" /\ op' = "import" /\ UNCHANGED <<cs, rel, cid, live>>
 
 \* "orig" cases: the imported list is cleaned / re-ordered (cs.hist: remove by class, select / permute rows) ...
@@ -159,7 +163,7 @@ C03_ImportPose ==
             /\ back[i].x = cs.rin[i].coord
             /\ \A k \in 1..3 :          \* shift = -origin (/ px from 3.1 on):  shift * den = -origin_num * U  (* px)
                  LET o == cs.rin[i].origin[k]
-                 IN  IF cs.v >= 31 THEN back[i].s[k] * o[2] * cs.px[1] = -(o[1] * U * cs.px[2])
+                 IN  IF cs.v >= 31 THEN back[i].s[k] * o[2] * PxOf(i)[1] = -(o[1] * U * PxOf(i)[2])
                                    ELSE back[i].s[k] * o[2] = -(o[1] * U)
             /\ Mul(FromCode(back[i].R), FromCode(cs.rin[i].M)) = Id
 
@@ -191,7 +195,7 @@ C03_OriginalEntries ==
         /\ Len(rel) = Len(live)
         /\ \A j \in 1..Len(live) :
               LET r == cs.rin[live[j]]
-                  pos == [k \in 1..3 |-> r.coord[k] + ShiftOf(r.origin[k], cs.v, cs.px)]
+                  pos == [k \in 1..3 |-> r.coord[k] + ShiftOf(r.origin[k], cs.v, PxOf(live[j]))]
               IN  /\ rel[j].tomo = r.tomo /\ rel[j].sid = r.sid /\ rel[j].subset = r.subset /\ rel[j].cls = r.cls
                   /\ cs.fmt.named => ParseTomo(rel[j].tomoName) = r.tomo /\ ParseSid(cs.v, rel[j].partName) = r.sid
                   /\ rel[j].coord = pos /\ \A k \in 1..3 : rel[j].origin[k][1] = 0
